@@ -7,4 +7,4 @@ Extract Constant ClassicalDedekindReals.sig_forall_dec => "(fun _ -> assert fals
 Extraction "model.ml" check_exp check_expm1 check_ln check_ln1p check_powi check_powf
   loose_exp loose_expm1 loose_ln loose_ln1p loose_powi loose_powf
   exp_entry ln_entry ln_entry_before_fix powi_entry powf_entry normalize dlen feq
-  mk_f32ops powi_asis exp_internal ln_internal powf_asis repr_log2_est repr_log2_bounds uint_log2_est.
+  mk_f32ops powi_asis powi_overlong exp_internal ln_internal powf_asis repr_log2_est repr_log2_bounds uint_log2_est.
